@@ -45,12 +45,23 @@ def explore(sem, root, env=None, max_depth=12):
         blocks = set(be.cfg.live)
         vis = Visit(body, be, env, blocks, via, args, upvars, w, parent, frozenset(removed))
         out.append(vis)
+        # closures this body calls directly (`f(x)` on a local closure): they are visited per call site with their parameters bound,
+        # like a function; closures that are only handed to library adaptors are visited once from their creation site
+        direct = {}
+        for bb in sorted(blocks):
+            t = body.blocks[bb].term
+            if t.kind == "call" and t.callee.trait and t.callee.name in ("call", "call_mut", "call_once") and \
+                    _strip(t.callee.trait).rsplit("::", 1)[-1] in ("Fn", "FnMut", "FnOnce") and len(t.args) == 2:
+                n = len(body.blocks[bb].stmts)
+                ce = w.ident(be.ev_operand(bb, n, t.args[0]), expand_ws=False)
+                if ce.op == "closure" and ce.info in w.prog.bodies:
+                    direct.setdefault(ce.info, []).append((bb, ce, be.ev_operand(bb, n, t.args[1])))
         for bb in sorted(blocks):
             blk = body.blocks[bb]
             for i, s in enumerate(blk.stmts):
                 if s.kind == "assign" and s.rv.kind == "agg" and "closure" in s.rv.j:
-                    cb = w.prog.bodies.get(s.rv.j["closure"])
-                    if cb is None:
+                    cb = w.prog.bodies.get(w.prog.alias.get(s.rv.j["closure"], s.rv.j["closure"]))
+                    if cb is None or cb.path in direct:
                         continue
                     cenv = {}
                     caps = []
@@ -60,8 +71,23 @@ def explore(sem, root, env=None, max_depth=12):
                         v = sem.aval(ce, env)
                         if v is not None:
                             cenv[E("upvar", (), (cb.path, n, cb.upvar_names.get(n)))] = v
-                    go(cb, cenv, via + ((body.path, s.line),), depth + 1, None, caps, (vis, bb))
+                    go(cb, cenv, via + ((body.path, s.line),), depth + 1, adaptor_args(w, vis, be, body, cb), caps, (vis, bb))
             t = blk.term
+            for cpath, sites in direct.items():
+                for (cbb, ce, targs) in sites:
+                    if cbb != bb:
+                        continue
+                    cb = w.prog.bodies[cpath]
+                    ta = w.ident(targs, expand_ws=False)
+                    elems = list(ta.args) if ta.op == "tuple" else [targs]
+                    cargs = [vis.resolve(ce)] + [vis.resolve(x) for x in elems]
+                    caps = [vis.resolve(x) for x in ce.args]
+                    cenv = {}
+                    for n2, x in enumerate(ce.args):
+                        v = sem.aval(x, env)
+                        if v is not None:
+                            cenv[E("upvar", (), (cb.path, n2, cb.upvar_names.get(n2)))] = v
+                    go(cb, cenv, via + ((body.path, t.line),), depth + 1, cargs, caps, (vis, bb))
             if t.kind == "call":
                 g = w.prog.bodies.get(_strip(t.callee.dpath)) or w.prog.bodies.get(_strip(t.callee.path))
                 if g is not None and g.is_fn():
@@ -78,6 +104,40 @@ def explore(sem, root, env=None, max_depth=12):
 
     go(root, env or {}, (), 0)
     return out
+
+
+def adaptor_args(w, vis, be, body, cb):
+    """parameter values of a closure that is the argument of an iterator / Option / Result adaptor of `body`: the item is
+    elem(receiver iterator) (krpsa.iters), the payload of an Option / Result receiver its Some / Ok / Err projection"""
+    from .iters import ITEM_ADAPTORS_1, ITEM_ADAPTORS_2, last
+    for blk in body.blocks:
+        t = blk.term
+        if t.kind != "call" or blk.idx not in be.cfg.live or len(t.args) < 2:
+            continue
+        n = len(blk.stmts)
+        hit = None
+        for k, a in enumerate(t.args[1:], 1):
+            ae = w.ident(be.ev_operand(blk.idx, n, a), expand_ws=False)
+            if ae.op == "closure" and ae.info == cb.path:
+                hit = k
+        if hit is None:
+            continue
+        nm = t.callee.name
+        tr = _strip(t.callee.trait or "")
+        recv = vis.resolve(be.ev_operand(blk.idx, n, t.args[0]))
+        if tr.endswith("iter::Iterator") or tr.endswith("iter::DoubleEndedIterator"):
+            if nm in ITEM_ADAPTORS_1:
+                return [None, E("elem", (recv,))]
+            if nm in ITEM_ADAPTORS_2 and hit == 2:
+                return [None, None, E("elem", (recv,))]
+        p = _strip(t.callee.path)
+        if p.startswith("std::option::Option::") and nm in ("map", "and_then", "filter", "map_or", "map_or_else", "is_some_and", "inspect"):
+            return [None] * hit + [E("proj", (recv,), "some")] if nm in ("map_or", "map_or_else") else [None, E("proj", (recv,), "some")]
+        if p.startswith("std::result::Result::") and nm in ("map", "and_then"):
+            return [None, E("proj", (recv,), "ok")]
+        if p.startswith("std::result::Result::") and nm in ("map_err", "or_else", "unwrap_or_else"):
+            return [None, E("proj", (recv,), "err")]
+    return None
 
 
 def _strip(p):
